@@ -410,6 +410,9 @@ func properties() map[string]*propDef {
 				out = append(out, item{Harness: "H_C19_cors", Cfg: []int{cfg}, Label: "cfg%2==0: AllowedMethods configured; cfg>=2: OPTIONSFilter installed too"})
 			}
 			out = append(out, item{Harness: "H_C19_attrs", Cfg: []int{2}}, item{Harness: "H_C19_attrs", Cfg: []int{3}})
+			for _, sh := range [][]int{{1, 1, 1}, {3, 1, 0}, {3, 0, 1}, {2, 1, 1}, {5, 1, 1}} {
+				out = append(out, item{Harness: "H_C19_chain", Cfg: sh, Label: "container/service/route filter counts (3 and 5 container filters leave spare capacity in the filter slice)"})
+			}
 			return out
 		},
 		Bounds: map[string]interface{}{"path_bytes": 12, "segments": 3, "method_bytes": 7, "requests_per_history": "2..3 on one container", "tables": nCoreTables},
